@@ -539,3 +539,22 @@ Theorem entry_value_cleared_or_copied_from_ad_rejected :
               (upd_providers pubkey sigt a x (l1 ++ upd_pvalues pubkey sigt p (a_addrs a) (p_md p) :: l2)%list)) = false).
 Proof. exact entry_values_cleared_or_copied_rejected. Qed.
 Print Assumptions entry_value_cleared_or_copied_from_ad_rejected.
+
+(* Repeated IDs.  An entry whose ID already occurs earlier in the list is checked like any
+   other: acceptance implies BOTH copies passed their own check (valid envelope over their
+   own payload, sealed by the identity named).  Instance of
+   extended_providers_checked_for_every_value_of_the_other_fields, stated so that an
+   "already seen" shortcut cannot be overlooked. *)
+Theorem every_entry_checked_regardless_of_repeats :
+  forall (pubkey sigt peerid : Type) (verify : pubkey -> bytes -> sigt -> bool) (peer_id : pubkey -> peerid)
+         (peerid_eqb : peerid -> peerid -> bool) (Hf : bytes -> bytes) (decode_pid : bytes -> option peerid),
+  (forall a b, peerid_eqb a b = true <-> a = b) ->
+  forall (strict : bool) (a : ad pubkey sigt) (x : ext pubkey sigt) (s : peerid)
+         (l1 : list (provider pubkey sigt)) (p : provider pubkey sigt) (l2 : list (provider pubkey sigt))
+         (q : provider pubkey sigt) (l3 : list (provider pubkey sigt)),
+  verify_gen verify peer_id peerid_eqb (ideal_H Hf) decode_pid strict a = Ok s -> a_ext a = Some x ->
+  x_providers x = (l1 ++ p :: l2 ++ q :: l3)%list -> p_id q = p_id p ->
+  ep_accepts pubkey sigt peerid verify peer_id Hf decode_pid strict a x s p /\
+  ep_accepts pubkey sigt peerid verify peer_id Hf decode_pid strict a x s q.
+Proof. exact repeated_id_entries_checked. Qed.
+Print Assumptions every_entry_checked_regardless_of_repeats.
